@@ -57,6 +57,7 @@ def run(ctx):
     if n != total:
         raise Infra("harness returned %d results for %d cases" % (n, total))
     structural_leg(ctx)
+    tlaps_leg(ctx)
     ctx.samples += [dict(p=c["p"], n=c["n"], bits="".join(map(str, c["bits"]))[:80], accept=c["accept"], cmp=c["cmp"]) for c in (batches[0][0][:2] + batches[1][0][:2])]
     ctx.traces_validated = n
     ctx.evaluations = n
@@ -150,3 +151,21 @@ def structural_leg(ctx):
             ctx.states += r["distinct"]
             ctx.transitions += r["generated"]
     ctx.cov["structural_gate_trace"] = out
+
+
+def tlaps_leg(ctx):
+    """Unbounded strengthening: TLAPS proves the scan invariant (flags track the comparison) for EVERY width and EVERY modulus digit function."""
+    import os, re as _re, shutil, subprocess
+    d = os.path.join(ctx.scratch, "tlaps")
+    os.makedirs(d, exist_ok=True)
+    shutil.copy(os.path.join(os.path.dirname(os.path.dirname(os.path.dirname(os.path.abspath(__file__)))), "specs", "ReducedCheckProof.tla"), d)
+    try:
+        r = subprocess.run(["tlapm", "--threads", "8", "ReducedCheckProof.tla"], cwd=d, capture_output=True, text=True, timeout=900)
+    except (subprocess.TimeoutExpired, FileNotFoundError) as e:
+        ctx.cov["tlaps"] = "not run: %s" % e
+        return
+    out = r.stdout + r.stderr
+    m = _re.search(r"All (\d+) obligations proved", out)
+    if not m:
+        raise Infra("TLAPS could not re-check ReducedCheckProof.tla:\n" + "\n".join(out.splitlines()[-15:]))
+    ctx.cov["tlaps"] = "ReducedCheckProof.tla: all %s obligations proved (scan invariant for arbitrary width and modulus)" % m.group(1)
